@@ -22,6 +22,7 @@ pub fn identifiers(p: &Prog) -> Vec<String> {
     };
     fn pat_names(p: &Pat, add: &mut dyn FnMut(&str)) {
         match p {
+            Pat::Var(n) if n == "_" => {}
             Pat::Var(n) => add(n),
             Pat::Tuple(ps) => ps.iter().for_each(|q| pat_names(q, add)),
             Pat::Record(fs) => fs.iter().for_each(|(_, q)| pat_names(q, add)),
